@@ -142,6 +142,19 @@ func (w *World) defsOf(fi *FuncInfo) *funcDefs {
 					if o := objOf(l); o != nil {
 						fd.defs[o] = append(fd.defs[o], s.Rhs[i])
 					}
+					// x[k] = v and x.F = v feed k, v into the local x (flow-insensitive)
+					switch lx := l.(type) {
+					case *ast.IndexExpr:
+						if o := objOf(lx.X); o != nil {
+							fd.defs[o] = append(fd.defs[o], lx.Index, s.Rhs[i])
+						}
+					case *ast.SelectorExpr:
+						if o := objOf(lx.X); o != nil {
+							if _, isVar := o.(*types.Var); isVar {
+								fd.defs[o] = append(fd.defs[o], s.Rhs[i])
+							}
+						}
+					}
 				}
 			} else if len(s.Rhs) == 1 {
 				for _, l := range s.Lhs {
@@ -158,6 +171,19 @@ func (w *World) defsOf(fi *FuncInfo) *funcDefs {
 						fd.defs[o] = append(fd.defs[o], s.Values[i])
 					} else if len(s.Values) == 1 {
 						fd.defs[o] = append(fd.defs[o], s.Values[0])
+					}
+				}
+			}
+		case *ast.ExprStmt:
+			// a method call on a local (x.Set(k, v), x.Add(v), ...) feeds its arguments into x
+			if call, ok := s.X.(*ast.CallExpr); ok {
+				if se, ok := call.Fun.(*ast.SelectorExpr); ok {
+					if o := objOf(se.X); o != nil {
+						if _, isVar := o.(*types.Var); isVar {
+							for _, arg := range call.Args {
+								fd.defs[o] = append(fd.defs[o], arg)
+							}
+						}
 					}
 				}
 			}
